@@ -21,6 +21,7 @@ import (
 	"encoding/binary"
 	"fmt"
 	"io"
+	"math"
 	"sort"
 	"sync"
 	"sync/atomic"
@@ -671,12 +672,12 @@ func (i *Snapshot) readSegmentSnapshot(br *bufio.Reader) (bytesRead int64, ss *s
 	bytesRead += int64(sz)
 
 	if delLen > 0 {
-		deletedBytes := make([]byte, int(delLen))
-		sz, err = io.ReadFull(br, deletedBytes)
+		var deletedBytes []byte
+		deletedBytes, err = readExactly(br, delLen)
 		if err != nil {
 			return bytesRead, nil, fmt.Errorf("error reading snapshot %d: %w", i.epoch, err)
 		}
-		bytesRead += int64(sz)
+		bytesRead += int64(len(deletedBytes))
 
 		rr := bytes.NewReader(deletedBytes)
 		deletedBitmap := roaring.NewBitmap()
@@ -704,13 +705,30 @@ func readVarLenString(r *bufio.Reader) (n int, str string, err error) {
 	}
 	n += sz
 
-	strBytes := make([]byte, strLen)
-	sz, err = r.Read(strBytes)
+	strBytes, err := readExactly(r, strLen)
 	if err != nil {
 		return n, "", err
 	}
-	n += sz
+	n += len(strBytes)
 	return n, string(strBytes), nil
+}
+
+// readExactly reads exactly n bytes from r. The buffer grows only as data
+// actually arrives, so a damaged length field (read before the CRC can be
+// verified) cannot cause an allocation out of proportion to the file.
+func readExactly(r io.Reader, n uint64) ([]byte, error) {
+	if n > math.MaxInt32 {
+		return nil, fmt.Errorf("invalid length %d", n)
+	}
+	var buf bytes.Buffer
+	_, err := io.CopyN(&buf, r, int64(n))
+	if err != nil {
+		if err == io.EOF {
+			err = io.ErrUnexpectedEOF
+		}
+		return nil, err
+	}
+	return buf.Bytes(), nil
 }
 
 func (i *Snapshot) DocumentValueReader(fields []string) (
